@@ -1,18 +1,33 @@
 (* Property C05: arithmetic on JSON numbers is exact decimal arithmetic, never
-   binary floating point.
+   binary floating point.  Everything is proved on the specification-level
+   decimal128 model of Num/Dec.v and the evaluator model of Model/NumberFns.v.
 
    A. no float detour: the binary-float path of every arithmetic entry point is
-      taken only when BOTH operands are Go floats;
-   B. + - * on finite decimals are exact whenever the exact result fits in 34
-      significant digits (value-level statement, bridging DecTheory);
-   C. division is exact when the exact quotient fits;
-   D. division by zero and overflow are reported as errors, results are never
-      an infinity or a NaN;
-   E. (see the end of the file for what is covered)
+      taken only when BOTH operands are Go floats (no_float_detour*,
+      float_result_needs_floats);
+   B. + - * on finite decimals are exact whenever the exact result is
+      representable (fits34): fit_value_exact, add_exact, sub_exact, mul_exact;
+      otherwise overflow or within half an ulp (add_close, sub_close, mul_close);
+   C. division: exact when the quotient is representable (quo_exact), else
+      overflow or within one ulp (quo_close);
+   D. errors: division by zero (divide_by_zero_traps, ...), overflow exactly
+      above (10^34 - 1/2) 10^emax (fit_overflow_only_above, fit_overflow_above,
+      overflow_traps); every Ok result is a canonical finite decimal
+      (results_never_inf_nan);
+   E. // is the floor of the exact quotient, % the exact truncated remainder
+      (integer_divide_floor, modulo_exact, idiv_mod_same_sign); for operands
+      of opposite signs the two are inconsistent
+      (idiv_mod_mixed_signs_inconsistent);
    F. unary minus, abs, floor, ceil, to_number;
    G. comparisons are comparisons of the rational values;
-   H. sum is NOT exact in general (one rounding per element): a refuting
-      example, and exactness when every partial sum fits.
+   H. sum and avg add their elements EXACTLY and round ONCE (sum_rounds_once,
+      avg_rounds_once): sum is exact whenever the exact total is representable,
+      whatever the partial sums do (sum_exact), otherwise it overflows or is
+      within half an ulp of the exact total (sum_close, sum_overflow,
+      sum_no_overflow); avg is the exact total divided by the length, exact
+      when that is representable (avg_exact), else within one ulp (avg_close);
+      an Ok result is a canonical finite decimal (sum_result_finite,
+      avg_result_finite).
 
    Values are rationals (QArith), as in DecTheory: Qv (DFin n c e) = qval n c e. *)
 From Coq Require Import List ZArith Bool Lia QArith Qpower Qabs Qround Qfield String.
@@ -251,20 +266,22 @@ Proof.
 Qed.
 
 (* ------------------------------------------------------------------ *)
-(* H (first part). sum rounds after every element: not exact           *)
+(* H (first part). sum and avg round ONCE: worked examples            *)
 (* ------------------------------------------------------------------ *)
 
 Definition jn (s : string) : value := VNum (NJson (bs s)).
 
 (* 9999999999999999999999999999999999 + 0.4 + 0.4 + 0.4 - 9999999999999999999999999999999999:
-   the exact sum is 1.2 (two significant digits), the library answers 0 *)
-Example sum_refuted :
+   no partial sum is representable (each would need 35 digits), the exact total
+   1.2 is, and that is the answer: the elements are added exactly and the
+   total is rounded once *)
+Example sum_rounds_once :
   sum (VArr [jn "9999999999999999999999999999999999"; jn "0.4"; jn "0.4"; jn "0.4";
-             jn "-9999999999999999999999999999999999"]) = Ok (vdec (DFin false 0 0)).
+             jn "-9999999999999999999999999999999999"]) = Ok (vdec (DFin false 12 (-1))).
 Proof. vm_compute. reflexivity. Qed.
 
 (* the operands, as the library reads them, and their exact rational sum *)
-Example sum_refuted_operands :
+Example sum_rounds_once_operands :
   map to_decimal [jn "9999999999999999999999999999999999"; jn "0.4"; jn "0.4"; jn "0.4";
                   jn "-9999999999999999999999999999999999"] =
   [Some (DFin false 9999999999999999999999999999999999 0); Some (DFin false 4 (-1));
@@ -272,23 +289,33 @@ Example sum_refuted_operands :
    Some (DFin true 9999999999999999999999999999999999 0)].
 Proof. vm_compute. reflexivity. Qed.
 
-Example sum_refuted_exact_value :
+Example sum_rounds_once_exact_value :
   (Qv (DFin false 9999999999999999999999999999999999 0) + Qv (DFin false 4 (-1)) +
    Qv (DFin false 4 (-1)) + Qv (DFin false 4 (-1)) +
    Qv (DFin true 9999999999999999999999999999999999 0) == 12 # 10)%Q
-  /\ fits34 (12 # 10) /\ ~ (Qv (DFin false 0 0) == 12 # 10)%Q.
+  /\ fits34 (12 # 10) /\ (Qv (DFin false 12 (-1)) == 12 # 10)%Q.
 Proof.
   split; [|split].
   - vm_compute. reflexivity.
   - exists 12, (-1). split; [|split]; [reflexivity | unfold emin, emax; lia | vm_compute; reflexivity].
-  - vm_compute. discriminate.
+  - vm_compute. reflexivity.
 Qed.
 
-(* the same for avg: exact average 0.24, computed 0 *)
-Example avg_refuted :
+(* the same for avg: the exact average 0.24 (the division pads the quotient to 34 digits) *)
+Example avg_rounds_once :
   avg (VArr [jn "9999999999999999999999999999999999"; jn "0.4"; jn "0.4"; jn "0.4";
-             jn "-9999999999999999999999999999999999"]) = Ok (vdec (DFin false 0 0)).
-Proof. vm_compute. reflexivity. Qed.
+             jn "-9999999999999999999999999999999999"]) =
+    Ok (vdec (DFin false 2400000000000000000000000000000000 (-34))) /\
+  (Qv (DFin false 2400000000000000000000000000000000 (-34)) == 24 # 100)%Q.
+Proof. split; vm_compute; reflexivity. Qed.
+
+(* a total that is not representable is rounded, once, to nearest *)
+Example sum_rounds_to_nearest :
+  sum (VArr [jn "9999999999999999999999999999999999"; jn "0.4"]) =
+    Ok (vdec (DFin false 9999999999999999999999999999999999 0)) /\
+  sum (VArr [jn "9999999999999999999999999999999998"; jn "0.4"; jn "0.4"]) =
+    Ok (vdec (DFin false 9999999999999999999999999999999999 0)).
+Proof. vm_compute. split; reflexivity. Qed.
 
 (* contrast: the textbook binary-float failure is exact here *)
 Example point_one_plus_point_two :
@@ -894,77 +921,100 @@ Example to_number_examples :
 Proof. vm_compute. repeat split. Qed.
 
 (* ------------------------------------------------------------------ *)
-(* H (second part). sum is exact when every partial sum is representable *)
+(* H (second part). sum adds exactly and rounds once: it is exact      *)
+(* whenever the exact TOTAL is representable                            *)
 (* ------------------------------------------------------------------ *)
 
 Fixpoint qsum (ds : list dec) : Q :=
   match ds with [] => 0%Q | d :: t => (Qv d + qsum t)%Q end.
 
-(* every operand is finite and every partial sum acc + d1 + ... + di fits *)
+(* exact_add never rounds: on finite operands its value is the exact sum *)
+Lemma exact_add_value : forall x y, fin x -> fin y ->
+  finite (exact_add x y) /\ (Qv (exact_add x y) == Qv x + Qv y)%Q.
+Proof.
+  intros [n1 c1 e1| |] [n2 c2 e2| |] Hx Hy; simpl in Hx, Hy; try contradiction.
+  pose proof (qval_add n1 c1 e1 n2 c2 e2) as HQ.
+  unfold exact_add, align in *. cbv beta iota zeta in *.
+  split; [simpl; apply Z.abs_nonneg | exact HQ].
+Qed.
+
+Lemma fin_is_fin : forall d, fin d -> is_fin d = true.
+Proof. intros [] H; simpl in *; auto; contradiction. Qed.
+
+Lemma is_fin_fin : forall d, is_fin d = true -> fin d.
+Proof. intros [] H; simpl in *; auto; discriminate. Qed.
+
+(* over finite elements the loop stays on the exact path and its total is the
+   exact rational sum, whatever the size of the partial sums *)
+Lemma sum_loop_exact : forall l ds t sp,
+  Forall2 (fun v d => to_decimal v = Some d) l ds -> Forall fin ds -> finite t ->
+  exists t', sum_loop l t sp true = Ok (t', sp, true) /\ finite t' /\
+             (Qv t' == Qv t + qsum ds)%Q.
+Proof.
+  intros l ds t sp HF. revert t. induction HF as [|v d l ds Hv HF IH]; intros t HD Ht.
+  - exists t. split; [reflexivity|]. split; [assumption|]. simpl. ring.
+  - inversion HD as [|? ? Hd HD']; subst. cbn [sum_loop]. rewrite Hv.
+    rewrite (fin_is_fin d Hd). cbn [andb].
+    destruct (exact_add_value t d (finite_fin t Ht) Hd) as [HA HV].
+    destruct (IH (exact_add t d) HD' HA) as (t' & E1 & E2 & E3).
+    exists t'. split; [exact E1|]. split; [exact E2|].
+    rewrite E3, HV. simpl. ring.
+Qed.
+
+Lemma sum_loop_total : forall l ds,
+  Forall2 (fun v d => to_decimal v = Some d) l ds -> Forall fin ds ->
+  exists n c e, sum_loop l dec_zero dec_zero true = Ok (DFin n c e, dec_zero, true) /\
+                0 <= c /\ (qval n c e == qsum ds)%Q.
+Proof.
+  intros l ds HF HD.
+  destruct (sum_loop_exact l ds dec_zero dec_zero HF HD ltac:(simpl; lia)) as (t & E1 & E2 & E3).
+  destruct t as [n c e| |]; simpl in E2; try contradiction.
+  exists n, c, e. split; [exact E1|]. split; [exact E2|].
+  simpl Qv in E3. rewrite E3, qval_zero. ring.
+Qed.
+
+(* sum is exact whenever the exact TOTAL is representable *)
+Theorem sum_exact : forall l ds,
+  Forall2 (fun v d => to_decimal v = Some d) l ds -> Forall fin ds ->
+  fits34 (qsum ds) ->
+  exists d, sum (VArr l) = Ok (vdec d) /\ canonical d /\ (Qv d == qsum ds)%Q.
+Proof.
+  intros l ds HF HD HQ.
+  destruct (sum_loop_total l ds HF HD) as (n & c & e & E1 & Hc & EV).
+  destruct (fit_value_exact' n c e _ Hc EV HQ) as [C1 C2].
+  exists (fit n c e). split; [|split; assumption].
+  unfold sum. rewrite E1. cbn [bind round_once].
+  apply trap_fin. apply finite_fin, canonical_finite, C1.
+Qed.
+
+(* the former, weaker statements (every PARTIAL sum representable) follow *)
 Fixpoint partial_sums_fit (acc : Q) (ds : list dec) : Prop :=
   match ds with
   | [] => True
   | d :: t => finite d /\ fits34 (acc + Qv d) /\ partial_sums_fit (acc + Qv d) t
   end.
 
-Lemma partial_sums_fit_comp : forall ds a a', (a == a')%Q ->
-  partial_sums_fit a ds -> partial_sums_fit a' ds.
+Lemma partial_sums_fit_total : forall ds a, fits34 a -> partial_sums_fit a ds ->
+  Forall fin ds /\ fits34 (a + qsum ds).
 Proof.
-  induction ds as [|d t IH]; intros a a' E H; [exact I|].
-  destruct H as (H1 & H2 & H3).
-  assert (E' : (a + Qv d == a' + Qv d)%Q) by (rewrite E; reflexivity).
-  split; [exact H1|]. split; [exact (fits34_comp _ _ E' H2) | exact (IH _ _ E' H3)].
+  induction ds as [|d t IH]; intros a Ha H.
+  - split; [constructor|]. apply (fits34_comp a); [simpl; ring | exact Ha].
+  - destruct H as (H1 & H2 & H3). destruct (IH _ H2 H3) as [F1 F2].
+    split; [constructor; [apply finite_fin; exact H1 | exact F1]|].
+    apply (fits34_comp _ _ (Qeq_sym _ _ (Qplus_assoc a (Qv d) (qsum t)))). exact F2.
 Qed.
 
-Lemma sum_loop_exact : forall l ds r,
-  Forall2 (fun v d => to_decimal v = Some d) l ds -> finite r ->
-  partial_sums_fit (Qv r) ds ->
-  exists d, sum_loop l r = Ok d /\ finite d /\ (Qv d == Qv r + qsum ds)%Q.
-Proof.
-  intros l ds r HF. revert r. induction HF as [|v d l ds Hv HF IH]; intros r Hr HP.
-  - exists r. split; [reflexivity|]. split; [assumption|]. simpl. ring.
-  - destruct HP as (Hd & Hfit & HP). cbn [sum_loop]. rewrite Hv.
-    destruct (add_exact r d Hr Hd Hfit) as [HC HV].
-    destruct (IH (dec_add r d) (canonical_finite _ HC)
-                 (partial_sums_fit_comp ds _ _ (Qeq_sym _ _ HV) HP)) as (d' & E1 & E2 & E3).
-    exists d'. split; [exact E1|]. split; [exact E2|].
-    rewrite E3, HV. simpl. ring.
-Qed.
+Lemma fits34_zero : fits34 0.
+Proof. exists 0, 0. split; [reflexivity|]. split; [unfold emin, emax; lia | reflexivity]. Qed.
 
-Theorem sum_exact_when_partial_sums_fit : forall l ds,
+Corollary sum_exact_when_partial_sums_fit : forall l ds,
   Forall2 (fun v d => to_decimal v = Some d) l ds ->
   partial_sums_fit 0 ds ->
   exists d, sum (VArr l) = Ok (vdec d) /\ finite d /\ (Qv d == qsum ds)%Q.
 Proof.
-  intros l ds HF HP.
-  assert (Z0 : (0 == Qv dec_zero)%Q) by (unfold dec_zero; simpl; rewrite qval_zero; reflexivity).
-  destruct (sum_loop_exact l ds dec_zero HF ltac:(simpl; lia)
-              (partial_sums_fit_comp ds _ _ Z0 HP)) as (d & E1 & E2 & E3).
-  exists d. split; [|split; [exact E2|]].
-  - unfold sum. rewrite E1. simpl. apply trap_fin. apply finite_fin. exact E2.
-  - rewrite E3, <- Z0. ring.
-Qed.
-
-(* sum never uses binary floating point, even on an array of Go floats: each
-   element is converted to decimal first (sum_loop only calls to_decimal). *)
-Lemma sum_loop_result : forall l r d, sum_loop l r = Ok d ->
-  exists ds, Forall2 (fun v d => to_decimal v = Some d) l ds /\ d = fold_left dec_add ds r.
-Proof.
-  induction l as [|v l IH]; intros r d H; simpl in H.
-  - inversion H. exists []. split; [constructor | reflexivity].
-  - destruct (to_decimal v) as [dv|] eqn:E; [|discriminate].
-    destruct (IH _ _ H) as (ds & H1 & H2).
-    exists (dv :: ds). split; [constructor; assumption | exact H2].
-Qed.
-
-Theorem sum_result_finite : forall l v, sum (VArr l) = Ok v ->
-  exists ds, Forall2 (fun v d => to_decimal v = Some d) l ds /\
-             v = vdec (fold_left dec_add ds dec_zero) /\ fin (fold_left dec_add ds dec_zero).
-Proof.
-  intros l v H. unfold sum in H.
-  destruct (sum_loop l dec_zero) as [d| | | |] eqn:E; simpl in H; try discriminate.
-  destruct (sum_loop_result _ _ _ E) as (ds & H1 & H2). subst d.
-  apply trap_ok in H. exists ds. tauto.
+  intros l ds HF HP. destruct (partial_sums_fit_total ds 0 fits34_zero HP) as [HD HQ].
+  destruct (sum_exact l ds HF HD (fits34_comp _ _ (Qplus_0_l _) HQ)) as (d & E1 & E2 & E3).
+  exists d. split; [exact E1|]. split; [apply canonical_finite; exact E2 | exact E3].
 Qed.
 
 (* ------------------------------------------------------------------ *)
@@ -1112,7 +1162,8 @@ Section OperatorsExact.
   Proof. intros H0 H. apply arith_exact_gen. apply quo_exact; assumption. Qed.
 End OperatorsExact.
 
-(* avg: exact when the partial sums and the final quotient are representable *)
+(* avg: the exact total divided by the length; exact when that quotient is
+   representable *)
 Lemma dec_of_Z_small : forall z, 0 <= z < 10 ^ 34 -> dec_of_Z z = DFin false z 0.
 Proof.
   intros z Hz. unfold dec_of_Z. rewrite Z.abs_eq by lia.
@@ -1120,7 +1171,29 @@ Proof.
   apply fit_exact; [lia | apply digits_le_of_lt; unfold prec34; lia | unfold emin, emax; lia].
 Qed.
 
-Theorem avg_exact_when_partial_sums_fit : forall l ds,
+Theorem avg_exact : forall l ds, l <> [] ->
+  Forall2 (fun v d => to_decimal v = Some d) l ds -> Forall fin ds ->
+  fits34 (qsum ds / inject_Z (Z.of_nat (List.length l))) ->
+  exists d, avg (VArr l) = Ok (vdec d) /\ canonical d /\
+            (Qv d == qsum ds / inject_Z (Z.of_nat (List.length l)))%Q.
+Proof.
+  intros l ds Hne HF HD HQ.
+  destruct (sum_loop_total l ds HF HD) as (s & c & e & E1 & Hc & EV).
+  set (n := Z.of_nat (List.length l)) in *.
+  assert (Hn : 0 < n) by (unfold n; destruct l; [contradiction | simpl List.length; lia]).
+  assert (QN : (Qv (DFin false n 0) == inject_Z n)%Q) by (simpl; apply qval_e0).
+  assert (NZ : ~ (Qv (DFin false n 0) == 0)%Q).
+  { rewrite QN. apply inject_Z_neq0. lia. }
+  assert (EQ : (Qv (DFin s c e) / Qv (DFin false n 0) == qsum ds / inject_Z n)%Q).
+  { rewrite QN. simpl Qv. rewrite EV. reflexivity. }
+  destruct (quo_exact (DFin s c e) (DFin false n 0) Hc ltac:(simpl; lia) NZ
+              (fits34_comp _ _ (Qeq_sym _ _ EQ) HQ)) as [C1 C2].
+  exists (dec_quo (DFin s c e) (DFin false n 0)). split; [|split; [exact C1 | rewrite C2; exact EQ]].
+  unfold avg. destruct l as [|v l']; [contradiction|]. rewrite E1. cbn [bind].
+  fold n. apply trap_fin. apply finite_fin, canonical_finite, C1.
+Qed.
+
+Corollary avg_exact_when_partial_sums_fit : forall l ds,
   l <> [] -> Z.of_nat (List.length l) < 10 ^ 34 ->
   Forall2 (fun v d => to_decimal v = Some d) l ds ->
   partial_sums_fit 0 ds ->
@@ -1128,23 +1201,8 @@ Theorem avg_exact_when_partial_sums_fit : forall l ds,
   exists d, avg (VArr l) = Ok (vdec d) /\ canonical d /\
             (Qv d == qsum ds / inject_Z (Z.of_nat (List.length l)))%Q.
 Proof.
-  intros l ds Hne Hlen HF HP HQ.
-  assert (Z0 : (0 == Qv dec_zero)%Q) by (unfold dec_zero; simpl; rewrite qval_zero; reflexivity).
-  destruct (sum_loop_exact l ds dec_zero HF ltac:(simpl; lia)
-              (partial_sums_fit_comp ds _ _ Z0 HP)) as (s & E1 & E2 & E3).
-  assert (E3' : (Qv s == qsum ds)%Q) by (rewrite E3, <- Z0; ring).
-  set (n := Z.of_nat (List.length l)) in *.
-  assert (Hn : 0 < n) by (unfold n; destruct l; [contradiction | simpl List.length; lia]).
-  assert (EN : dec_of_Z n = DFin false n 0) by (apply dec_of_Z_small; lia).
-  assert (QN : (Qv (DFin false n 0) == inject_Z n)%Q) by (simpl; apply qval_e0).
-  assert (NZ : ~ (Qv (DFin false n 0) == 0)%Q).
-  { rewrite QN. apply inject_Z_neq0. lia. }
-  assert (EQ : (Qv s / Qv (DFin false n 0) == qsum ds / inject_Z n)%Q) by (rewrite E3', QN; reflexivity).
-  destruct (quo_exact s (DFin false n 0) E2 ltac:(simpl; lia) NZ
-              (fits34_comp _ _ (Qeq_sym _ _ EQ) HQ)) as [C1 C2].
-  exists (dec_quo s (DFin false n 0)). split; [|split; [exact C1 | rewrite C2; exact EQ]].
-  unfold avg. destruct l as [|v l']; [contradiction|]. rewrite E1. cbn [bind].
-  fold n. rewrite EN. apply trap_fin. apply finite_fin, canonical_finite, C1.
+  intros l ds Hne _ HF HP HQ. destruct (partial_sums_fit_total ds 0 fits34_zero HP) as [HD _].
+  exact (avg_exact l ds Hne HF HD HQ).
 Qed.
 
 (* ------------------------------------------------------------------ *)
@@ -1575,3 +1633,1160 @@ Proof.
       setoid_replace U with ((1 # 2) * U + (1 # 2) * U)%Q at 1 by (field).
       apply Qplus_le_compat; assumption.
 Qed.
+
+(* ------------------------------------------------------------------ *)
+(* Overflow threshold: fit overflows exactly above (10^34 - 1/2) 10^emax *)
+(* ------------------------------------------------------------------ *)
+
+Lemma fit_inf_iff : forall n c e c1 e1, round_coef c e = (c1, e1) -> 0 < c1 ->
+  (fit n c e = DInf n <-> emax < e1 /\ prec34 < digits c1 + (e1 - emax)).
+Proof.
+  intros n c e c1 e1 ER Hc1. unfold fit. rewrite ER.
+  destruct (Z.eqb_spec c1 0) as [|_]; [lia|].
+  destruct (Z.gtb_spec e1 emax) as [Hhi|Hhi].
+  - destruct (Z.leb_spec (digits c1 + (e1 - emax)) prec34) as [Hp|Hp].
+    + split; [discriminate | lia].
+    + split; [intros _; split; assumption | intros _; reflexivity].
+  - destruct (Z.ltb_spec e1 emin); [destruct (_ >? 40)|]; (split; [discriminate | lia]).
+Qed.
+
+Lemma digits_ge_of_le : forall c p, 0 <= p -> 10 ^ p <= c -> p < digits c.
+Proof.
+  intros c p Hp H. assert (Hc : 0 < c) by (pose proof (pow10_pos p Hp); lia).
+  pose proof (digits_spec c Hc) as [_ U]. pose proof (digits_pos c Hc).
+  apply pow10_lt_inv; lia.
+Qed.
+
+Lemma pow10_split : forall a b, 0 <= a -> 0 <= b -> 10 ^ (a + b) = 10 ^ a * 10 ^ b.
+Proof. intros. apply Z.pow_add_r; assumption. Qed.
+
+Definition T34 : Z := 2 * 10 ^ 34 - 1.
+
+(* Z-level statement, both values scaled to the common exponent M *)
+Lemma fit_overflow_Z : forall n c e, 0 < c ->
+  let M := Z.min e emax in
+  (fit n c e = DInf n -> T34 * 10 ^ (emax - M) <= 2 * c * 10 ^ (e - M)) /\
+  (T34 * 10 ^ (emax - M) < 2 * c * 10 ^ (e - M) -> fit n c e = DInf n).
+Proof.
+  intros n c e Hc M.
+  destruct (round_coef c e) as [c1 e1] eqn:ER.
+  destruct (round_coef_err c e c1 e1 Hc ER) as (j & Hj & He1 & Hc1 & Hd1 & Herr & Hsmall & Hbig).
+  rewrite (fit_inf_iff n c e c1 e1 ER Hc1).
+  pose proof (digits_spec c Hc) as [L U]. pose proof (digits_pos c Hc) as Dp.
+  set (d := digits c) in *. unfold prec34, T34 in *.
+  set (X := c * 10 ^ (e - M)). set (Y := 10 ^ (emax - M)).
+  assert (PY : 0 < Y) by (apply pow10_pos; unfold M; lia).
+  assert (PX : 0 < 10 ^ (e - M)) by (apply pow10_pos; unfold M; lia).
+  assert (P34 : 10 ^ 34 = 10000000000000000000000000000000000) by reflexivity.
+  replace (2 * c * 10 ^ (e - M)) with (2 * X) by (unfold X; ring).
+  destruct (Z_le_gt_dec d 34) as [Hd|Hd].
+  - (* no coefficient rounding *)
+    destruct (Hsmall Hd) as [-> ->]. rewrite Z.add_0_r in *. subst e1.
+    assert (Hlt : c < 10 ^ 34).
+    { apply Z.lt_le_trans with (10 ^ d); [exact U|]. apply Z.pow_le_mono_r; lia. }
+    destruct (Z_le_gt_dec e emax) as [Hee|Hee].
+    + (* e <= emax: never overflows, never above the threshold *)
+      assert (EM : M = e) by (unfold M; lia).
+      assert (EX : X = c) by (unfold X; rewrite EM, Z.sub_diag; ring).
+      split; [lia|]. intros H. exfalso. rewrite EX in H.
+      assert (1 <= Y) by lia. nia.
+    + assert (EM : M = emax) by (unfold M; lia).
+      assert (EY : Y = 1) by (unfold Y; rewrite EM, Z.sub_diag; reflexivity).
+      rewrite EY, Z.mul_1_r. unfold X. rewrite EM.
+      assert (Pk : 0 < 10 ^ (e - emax)) by (apply pow10_pos; lia).
+      pose proof (digits_mul_pow c (e - emax) Hc ltac:(lia)) as DM. fold d in DM.
+      split.
+      * intros [_ H]. assert (34 < digits (c * 10 ^ (e - emax))) by lia.
+        assert (~ c * 10 ^ (e - emax) < 10 ^ 34).
+        { intro. assert (digits (c * 10 ^ (e - emax)) <= 34) by (apply digits_le_of_lt; lia). lia. }
+        lia.
+      * intros H. split; [lia|].
+        assert (10 ^ 34 <= c * 10 ^ (e - emax)) by lia.
+        apply digits_ge_of_le in H0; lia.
+  - (* the coefficient is rounded to 34 digits first *)
+    destruct (Hbig ltac:(lia)) as (Hkj & RL & RU). clear Hsmall Hbig.
+    set (k := d - 34) in *. assert (Hk : 0 < k) by (unfold k; lia).
+    assert (Pk : 0 < 10 ^ k) by (apply pow10_pos; lia).
+    assert (Pj : 0 < 10 ^ j) by (apply pow10_pos; lia).
+    set (R := c1 * 10 ^ j) in *.
+    assert (DR : digits R = digits c1 + j) by (apply digits_mul_pow; lia).
+    assert (Ld : 10 ^ 33 * 10 ^ k <= c).
+    { rewrite <- Z.pow_add_r by lia. replace (33 + k) with (d - 1) by (unfold k; lia). exact L. }
+    assert (Ud : c < 10 ^ 34 * 10 ^ k).
+    { rewrite <- Z.pow_add_r by lia. replace (34 + k) with d by (unfold k; lia). exact U. }
+    (* R is a multiple of 10^k *)
+    assert (RM : R = (c1 * 10 ^ (j - k)) * 10 ^ k).
+    { unfold R. rewrite <- Z.mul_assoc, <- Z.pow_add_r by lia. do 2 f_equal. lia. }
+    set (m := c1 * 10 ^ (j - k)) in *.
+    assert (Pjk : 0 < 10 ^ (j - k)) by (apply pow10_pos; lia).
+    assert (Hm : 10 ^ 33 <= m <= 10 ^ 34) by (rewrite RM in RL, RU; nia).
+    subst e1.
+    destruct (Z_lt_le_dec emax (k + e)) as [Hke|Hke].
+    + (* far above *)
+      assert (HX : 10 ^ 34 * Y <= X).
+      { destruct (Z_le_gt_dec e emax) as [Hee|Hee].
+        - assert (EM : M = e) by (unfold M; lia). unfold X, Y. rewrite EM, Z.sub_diag, Z.mul_1_r.
+          apply Z.le_trans with (10 ^ 33 * 10 ^ k); [|exact Ld].
+          change (10 ^ 34) with (10 ^ 33 * 10 ^ 1). rewrite <- Z.mul_assoc, <- Z.pow_add_r by lia.
+          apply Z.mul_le_mono_nonneg_l; [lia|]. apply Z.pow_le_mono_r; lia.
+        - assert (EM : M = emax) by (unfold M; lia). unfold X, Y. rewrite EM, Z.sub_diag, Z.mul_1_r.
+          assert (1 <= 10 ^ (e - emax)) by (assert (0 < 10 ^ (e - emax)) by (apply pow10_pos; lia); lia).
+          assert (10 ^ 34 <= 10 ^ 33 * 10 ^ k).
+          { change (10 ^ 34) with (10 ^ 33 * 10 ^ 1). apply Z.mul_le_mono_nonneg_l; [lia|].
+            apply Z.pow_le_mono_r; lia. }
+          nia. }
+      split; [intros _; nia|]. intros _. split; [lia|].
+      assert (33 + k < digits R).
+      { apply digits_ge_of_le; [lia|]. rewrite Z.pow_add_r by lia. exact RL. }
+      lia.
+    + destruct (Z.eq_dec (k + e) emax) as [Heq|Hne].
+      * (* the boundary decade: M = e, Y = 10^k, X = c *)
+        assert (EM : M = e) by (unfold M; lia).
+        assert (EX : X = c) by (unfold X; rewrite EM, Z.sub_diag; ring).
+        assert (EY : Y = 10 ^ k) by (unfold Y; rewrite EM; f_equal; lia).
+        rewrite EX, EY. fold R in Herr. fold k in Herr.
+        split.
+        -- intros [H1 H2].
+           assert (34 + k < digits R) by lia.
+           assert (~ R < 10 ^ (34 + k)).
+           { intro. assert (digits R <= 34 + k) by (apply digits_le_of_lt; lia). lia. }
+           rewrite Z.pow_add_r in H0 by lia. lia.
+        -- intros H. assert (HR : R = 10 ^ 34 * 10 ^ k).
+           { assert (10 ^ 34 - 1 < m) by (rewrite RM in Herr; nia).
+             assert (m = 10 ^ 34) by lia. rewrite RM. f_equal. assumption. }
+           assert (34 + k < digits R).
+           { apply digits_ge_of_le; [lia|]. rewrite Z.pow_add_r by lia. lia. }
+           lia.
+      * (* below: no overflow, below the threshold *)
+        assert (Hlt : k + e < emax) by lia.
+        assert (EM : M = e) by (unfold M; lia).
+        assert (EX : X = c) by (unfold X; rewrite EM, Z.sub_diag; ring).
+        assert (EY : Y = 10 ^ (emax - e)) by (unfold Y; rewrite EM; reflexivity).
+        assert (HY : 10 * 10 ^ k <= Y).
+        { rewrite EY. change 10 with (10 ^ 1) at 1. rewrite <- Z.pow_add_r by lia.
+          apply Z.pow_le_mono_r; lia. }
+        rewrite EX.
+        split.
+        -- intros [H1 H2]. exfalso.
+           assert (digits R <= 35 + k).
+           { apply digits_le_of_lt; [lia|].
+             replace (35 + k) with (1 + (34 + k)) by lia. rewrite !Z.pow_add_r by lia.
+             change (10 ^ 1) with 10. lia. }
+           lia.
+        -- intros H. exfalso. nia.
+Qed.
+
+Lemma qval_le_int : forall M a e b k, M <= e -> M <= k ->
+  ((qval false a e <= qval false b k)%Q <-> a * 10 ^ (e - M) <= b * 10 ^ (k - M)).
+Proof.
+  intros M a e b k He Hk.
+  rewrite (qval_scaled M false a e), (qval_scaled M false b k) by lia.
+  rewrite Qmult_le_r by apply ten_pow_pos. rewrite <- Zle_Qle. unfold scaled, sgn. reflexivity.
+Qed.
+
+Lemma qval_lt_int : forall M a e b k, M <= e -> M <= k ->
+  ((qval false a e < qval false b k)%Q <-> a * 10 ^ (e - M) < b * 10 ^ (k - M)).
+Proof.
+  intros M a e b k He Hk.
+  rewrite (qval_scaled M false a e), (qval_scaled M false b k) by lia.
+  rewrite Qmult_lt_r by apply ten_pow_pos. rewrite <- Zlt_Qlt. unfold scaled, sgn. reflexivity.
+Qed.
+
+(* the largest finite decimal128 and the overflow threshold, half an ulp above it *)
+Definition max_finite : Q := qval false (10 ^ 34 - 1) emax.
+Definition overflow_threshold : Q := ((1 # 2) * qval false T34 emax)%Q.
+
+Lemma qval_double : forall c e, (qval false (2 * c) e == inject_Z 2 * qval false c e)%Q.
+Proof. intros. unfold qval, sgn. rewrite inject_Z_mult. ring. Qed.
+
+Lemma half_le_iff : forall t v : Q, ((1 # 2) * t <= v <-> t <= inject_Z 2 * v)%Q.
+Proof.
+  intros t v. split; intros H.
+  - setoid_replace t with (inject_Z 2 * ((1 # 2) * t))%Q by field.
+    apply Qmult_le_l; [reflexivity | exact H].
+  - setoid_replace v with ((1 # 2) * (inject_Z 2 * v))%Q by field.
+    apply Qmult_le_l; [reflexivity | exact H].
+Qed.
+
+Lemma half_lt_iff : forall t v : Q, ((1 # 2) * t < v <-> t < inject_Z 2 * v)%Q.
+Proof.
+  intros t v. split; intros H.
+  - setoid_replace t with (inject_Z 2 * ((1 # 2) * t))%Q by field.
+    apply Qmult_lt_l; [reflexivity | exact H].
+  - setoid_replace v with ((1 # 2) * (inject_Z 2 * v))%Q by field.
+    apply Qmult_lt_l; [reflexivity | exact H].
+Qed.
+
+Lemma threshold_le_iff : forall c e,
+  ((overflow_threshold <= qval false c e)%Q <->
+   T34 * 10 ^ (emax - Z.min e emax) <= 2 * c * 10 ^ (e - Z.min e emax)).
+Proof.
+  intros c e. rewrite <- (qval_le_int (Z.min e emax) T34 emax (2 * c) e) by lia.
+  rewrite qval_double. unfold overflow_threshold. apply half_le_iff.
+Qed.
+
+Lemma threshold_lt_iff : forall c e,
+  ((overflow_threshold < qval false c e)%Q <->
+   T34 * 10 ^ (emax - Z.min e emax) < 2 * c * 10 ^ (e - Z.min e emax)).
+Proof.
+  intros c e. rewrite <- (qval_lt_int (Z.min e emax) T34 emax (2 * c) e) by lia.
+  rewrite qval_double. unfold overflow_threshold. apply half_lt_iff.
+Qed.
+
+(* fit overflows only at or above the threshold, and always strictly above it *)
+Theorem fit_overflow_only_above : forall n c e, 0 <= c ->
+  fit n c e = DInf n -> (overflow_threshold <= Qabs (qval n c e))%Q.
+Proof.
+  intros n c e Hc H. rewrite qval_false_abs by assumption.
+  destruct (Z.eq_dec c 0) as [->|Hn].
+  - exfalso. unfold fit in H. rewrite round_coef_id in H by (rewrite ?digits_nonpos; unfold prec34; lia).
+    simpl in H. discriminate.
+  - apply threshold_le_iff. apply (proj1 (fit_overflow_Z n c e ltac:(lia))). exact H.
+Qed.
+
+Theorem fit_overflow_above : forall n c e, 0 <= c ->
+  (overflow_threshold < Qabs (qval n c e))%Q -> fit n c e = DInf n.
+Proof.
+  intros n c e Hc H. rewrite qval_false_abs in H by assumption.
+  destruct (Z.eq_dec c 0) as [->|Hn].
+  - exfalso. rewrite qval_zero in H. revert H. apply Qle_not_lt.
+    unfold overflow_threshold, qval. apply Qmult_le_0_compat; [discriminate|].
+    apply Qmult_le_0_compat; [discriminate | apply Qlt_le_weak, ten_pow_pos].
+  - apply (proj2 (fit_overflow_Z n c e ltac:(lia))). apply threshold_lt_iff. exact H.
+Qed.
+
+Corollary fit_no_overflow : forall n c e, 0 <= c ->
+  (Qabs (qval n c e) < overflow_threshold)%Q -> canonical (fit n c e).
+Proof.
+  intros n c e Hc H. destruct (fit_cases n c e Hc) as [HC|HI]; [exact HC|].
+  exfalso. apply (Qlt_not_le _ _ H). apply fit_overflow_only_above; assumption.
+Qed.
+
+Lemma fit_overflow_above' : forall n c e r, 0 <= c -> (qval n c e == r)%Q ->
+  (overflow_threshold < Qabs r)%Q -> fit n c e = DInf n.
+Proof. intros n c e r Hc E H. apply fit_overflow_above; [assumption|]. rewrite E. exact H. Qed.
+
+Lemma fit_no_overflow' : forall n c e r, 0 <= c -> (qval n c e == r)%Q ->
+  (Qabs r < overflow_threshold)%Q -> canonical (fit n c e).
+Proof. intros n c e r Hc E H. apply fit_no_overflow; [assumption|]. rewrite E. exact H. Qed.
+
+Lemma threshold_pos : (0 < overflow_threshold)%Q.
+Proof.
+  unfold overflow_threshold, qval.
+  apply Qmult_lt_0_compat; [reflexivity|]. apply Qmult_lt_0_compat; [reflexivity | apply ten_pow_pos].
+Qed.
+
+(* * + - : overflow is reported, and only overflow *)
+Theorem mul_overflow : forall a b, finite a -> finite b ->
+  (overflow_threshold < Qabs (Qv a * Qv b))%Q -> exists s, dec_mul a b = DInf s.
+Proof.
+  intros [n1 c1 e1| |] [n2 c2 e2| |] Ha Hb H; simpl in Ha, Hb; try contradiction.
+  eexists. unfold dec_mul.
+  apply (fit_overflow_above' _ _ _ _ (Z.mul_nonneg_nonneg _ _ Ha Hb) (qval_mul n1 c1 e1 n2 c2 e2) H).
+Qed.
+
+Theorem mul_no_overflow : forall a b, finite a -> finite b ->
+  (Qabs (Qv a * Qv b) < overflow_threshold)%Q -> canonical (dec_mul a b).
+Proof.
+  intros [n1 c1 e1| |] [n2 c2 e2| |] Ha Hb H; simpl in Ha, Hb; try contradiction.
+  unfold dec_mul.
+  apply (fit_no_overflow' _ _ _ _ (Z.mul_nonneg_nonneg _ _ Ha Hb) (qval_mul n1 c1 e1 n2 c2 e2) H).
+Qed.
+
+Theorem add_overflow : forall a b, finite a -> finite b ->
+  (overflow_threshold < Qabs (Qv a + Qv b))%Q -> exists s, dec_add a b = DInf s.
+Proof.
+  intros [n1 c1 e1| |] [n2 c2 e2| |] Ha Hb H; simpl in Ha, Hb; try contradiction.
+  change (Qv (DFin n1 c1 e1)) with (qval n1 c1 e1) in *.
+  change (Qv (DFin n2 c2 e2)) with (qval n2 c2 e2) in *.
+  pose proof (qval_add n1 c1 e1 n2 c2 e2) as HQ.
+  unfold dec_add, align in *. cbv beta iota zeta in *.
+  set (e := Z.min e1 e2) in *.
+  set (s := sgn n1 (c1 * pow10 (e1 - e)) + sgn n2 (c2 * pow10 (e2 - e))) in *.
+  destruct (Z.eqb_spec s 0) as [E0|E0].
+  - exfalso. rewrite E0 in HQ. simpl in HQ. rewrite <- HQ, qval_zero in H. simpl in H.
+    apply (Qlt_irrefl 0). eapply Qlt_trans; [apply threshold_pos | exact H].
+  - eexists. apply (fit_overflow_above' _ _ _ _ (Z.abs_nonneg s) HQ H).
+Qed.
+
+Theorem add_no_overflow : forall a b, finite a -> finite b ->
+  (Qabs (Qv a + Qv b) < overflow_threshold)%Q -> canonical (dec_add a b).
+Proof.
+  intros [n1 c1 e1| |] [n2 c2 e2| |] Ha Hb H; simpl in Ha, Hb; try contradiction.
+  change (Qv (DFin n1 c1 e1)) with (qval n1 c1 e1) in *.
+  change (Qv (DFin n2 c2 e2)) with (qval n2 c2 e2) in *.
+  pose proof (qval_add n1 c1 e1 n2 c2 e2) as HQ.
+  unfold dec_add, align in *. cbv beta iota zeta in *.
+  set (e := Z.min e1 e2) in *.
+  set (s := sgn n1 (c1 * pow10 (e1 - e)) + sgn n2 (c2 * pow10 (e2 - e))) in *.
+  destruct (Z.eqb_spec s 0) as [E0|E0].
+  - unfold canonical. rewrite digits_nonpos by lia. unfold prec34, emin, emax. lia.
+  - apply (fit_no_overflow' _ _ _ _ (Z.abs_nonneg s) HQ H).
+Qed.
+
+Theorem sub_overflow : forall a b, finite a -> finite b ->
+  (overflow_threshold < Qabs (Qv a - Qv b))%Q -> exists s, dec_sub a b = DInf s.
+Proof.
+  intros a b Ha Hb H. unfold dec_sub. apply add_overflow; [assumption | apply finite_neg; assumption|].
+  rewrite Qv_neg. exact H.
+Qed.
+
+Theorem sub_no_overflow : forall a b, finite a -> finite b ->
+  (Qabs (Qv a - Qv b) < overflow_threshold)%Q -> canonical (dec_sub a b).
+Proof.
+  intros a b Ha Hb H. unfold dec_sub. apply add_no_overflow; [assumption | apply finite_neg; assumption|].
+  rewrite Qv_neg. exact H.
+Qed.
+
+(* the general overflow statement for the operators: an exact result beyond
+   the decimal128 range is an error, never an infinity value *)
+Theorem overflow_traps : forall x y a b,
+  to_float x = None \/ to_float y = None ->
+  to_decimal x = Some a -> to_decimal y = Some b -> finite a -> finite b ->
+  ((overflow_threshold < Qabs (Qv a * Qv b))%Q -> multiply x y = Err EInfinity) /\
+  ((overflow_threshold < Qabs (Qv a + Qv b))%Q -> add x y = Err EInfinity) /\
+  ((overflow_threshold < Qabs (Qv a - Qv b))%Q -> subtract x y = Err EInfinity).
+Proof.
+  intros x y a b HF Hx Hy Ha Hb. unfold multiply, add, subtract.
+  rewrite !no_float_detour by assumption. rewrite Hx, Hy.
+  split; [|split]; intros H.
+  - destruct (mul_overflow a b Ha Hb H) as [s ->]. reflexivity.
+  - destruct (add_overflow a b Ha Hb H) as [s ->]. reflexivity.
+  - destruct (sub_overflow a b Ha Hb H) as [s ->]. reflexivity.
+Qed.
+
+(* ------------------------------------------------------------------ *)
+(* E. integer division (floor) and modulo (truncated remainder)        *)
+(* ------------------------------------------------------------------ *)
+
+(* truncation toward zero *)
+Definition Qtrunc (x : Q) : Z := if Qlt_le_dec x 0 then Qceiling x else Qfloor x.
+
+Lemma Qtrunc_comp : forall x y, (x == y)%Q -> Qtrunc x = Qtrunc y.
+Proof.
+  intros x y E. unfold Qtrunc.
+  destruct (Qlt_le_dec x 0) as [H1|H1], (Qlt_le_dec y 0) as [H2|H2].
+  - apply Qceiling_comp; assumption.
+  - exfalso. rewrite E in H1. apply (Qlt_not_le _ _ H1 H2).
+  - exfalso. rewrite E in H1. apply (Qlt_not_le _ _ H2 H1).
+  - apply Qfloor_comp; assumption.
+Qed.
+
+Lemma Qfloor_div : forall z B, 0 < B -> Qfloor (inject_Z z / inject_Z B) = z / B.
+Proof.
+  intros z B HB. destruct B as [|p|p]; try lia.
+  rewrite <- (Qfloor_comp _ _ (Qmake_Qdiv z p)). reflexivity.
+Qed.
+
+Lemma Qceiling_div : forall z B, 0 < B -> Qceiling (inject_Z z / inject_Z B) = - ((- z) / B).
+Proof.
+  intros z B HB. unfold Qceiling.
+  assert (E : (- (inject_Z z / inject_Z B) == inject_Z (- z) / inject_Z B)%Q).
+  { rewrite inject_Z_opp. field. apply inject_Z_neq0. lia. }
+  rewrite (Qfloor_comp _ _ E), Qfloor_div by assumption. reflexivity.
+Qed.
+
+Lemma Qtrunc_div : forall x A B, 0 <= A -> 0 < B ->
+  Qtrunc (inject_Z (sgn x A) / inject_Z B) = sgn x (A / B).
+Proof.
+  intros x A B HA HB. unfold Qtrunc.
+  assert (PB : (0 < inject_Z B)%Q) by (change 0%Q with (inject_Z 0); rewrite <- Zlt_Qlt; exact HB).
+  destruct (Qlt_le_dec (inject_Z (sgn x A) / inject_Z B) 0) as [H|H].
+  - rewrite Qceiling_div by assumption.
+    destruct x; unfold sgn in *.
+    + rewrite Z.opp_involutive. reflexivity.
+    + exfalso. apply (Qlt_not_le _ _ H). apply Qle_shift_div_l; [exact PB|].
+      rewrite Qmult_0_l. change 0%Q with (inject_Z 0). rewrite <- Zle_Qle. exact HA.
+  - rewrite Qfloor_div by assumption.
+    destruct x; unfold sgn in *; [|reflexivity].
+    assert (A = 0).
+    { destruct (Z.eq_dec A 0); [assumption|]. exfalso. apply (Qle_not_lt _ _ H).
+      apply Qlt_shift_div_r; [exact PB|]. rewrite Qmult_0_l.
+      change 0%Q with (inject_Z 0). rewrite <- Zlt_Qlt. lia. }
+    subst A. reflexivity.
+Qed.
+
+(* the aligned integer operands of QuoRem *)
+Section QuoRem.
+  Variables (n1 : bool) (c1 e1 : Z) (n2 : bool) (c2 e2 : Z).
+  Hypothesis Ca : canonical (DFin n1 c1 e1).
+  Hypothesis Cb : canonical (DFin n2 c2 e2).
+  Hypothesis Hc2 : 0 < c2.
+
+  Let e := Z.min e1 e2.
+  Let A := c1 * 10 ^ (e1 - e).
+  Let B := c2 * 10 ^ (e2 - e).
+  Let x := xorb n1 n2.
+
+  Lemma qr_A_nonneg : 0 <= A.
+  Proof. destruct Ca as (H & _). unfold A. apply Z.mul_nonneg_nonneg; [lia|]. apply Z.pow_nonneg; lia. Qed.
+
+  Lemma qr_B_pos : 0 < B.
+  Proof. unfold B. apply Z.mul_pos_pos; [lia|]. apply pow10_pos. unfold e; lia. Qed.
+
+  Lemma qr_quorem : dec_quorem (DFin n1 c1 e1) (DFin n2 c2 e2) = (fit x (A / B) 0, fit n1 (A mod B) e).
+  Proof.
+    unfold dec_quorem. destruct (Z.eqb_spec c2 0); [lia|]. reflexivity.
+  Qed.
+
+  Lemma qr_rem_short : 0 <= A mod B < 10 ^ 34.
+  Proof.
+    pose proof qr_A_nonneg as HA. pose proof qr_B_pos as HB.
+    pose proof (Z.mod_pos_bound A B HB) as MB. pose proof (Z.mod_le A B HA HB) as ML.
+    destruct Ca as (Ha0 & Had & _), Cb as (Hb0 & Hbd & _).
+    split; [lia|].
+    destruct (Z_le_gt_dec e1 e2) as [H|H].
+    - assert (EA : A = c1) by (unfold A, e; rewrite Z.min_l, Z.sub_diag by lia; ring).
+      destruct (Z.eq_dec c1 0) as [Z0|]; [rewrite EA, Z0 in *; assert (0 < 10 ^ 34) by reflexivity; lia|].
+      pose proof (digits_lt_pow c1 ltac:(lia) Had). lia.
+    - assert (EB : B = c2) by (unfold B, e; rewrite Z.min_r, Z.sub_diag by lia; ring).
+      pose proof (digits_lt_pow c2 Hc2 Hbd). lia.
+  Qed.
+
+  (* the remainder is always exact on canonical operands *)
+  Lemma qr_rem_exact : fit n1 (A mod B) e = DFin n1 (A mod B) e.
+  Proof.
+    pose proof qr_rem_short as H. destruct Ca as (_ & _ & He1), Cb as (_ & _ & He2).
+    apply fit_exact; [lia | apply digits_le_of_lt; unfold prec34; lia | unfold e; lia].
+  Qed.
+
+  Lemma qr_Qva : (qval n1 c1 e1 == qval n1 A e)%Q.
+  Proof. unfold A. rewrite qval_shift by (unfold e; lia). replace (e + (e1 - e)) with e1 by lia. reflexivity. Qed.
+
+  Lemma qr_Qvb : (qval n2 c2 e2 == qval n2 B e)%Q.
+  Proof. unfold B. rewrite qval_shift by (unfold e; lia). replace (e + (e2 - e)) with e2 by lia. reflexivity. Qed.
+
+  Lemma qr_ratio : (qval n1 c1 e1 / qval n2 c2 e2 == inject_Z (sgn x A) / inject_Z B)%Q.
+  Proof.
+    pose proof qr_B_pos as HB.
+    rewrite qr_Qva, qr_Qvb. unfold qval.
+    transitivity (inject_Z (sgn n1 A) / inject_Z (sgn n2 B))%Q; [|apply sgn_xorb_inj; lia].
+    field. repeat split; try apply ten_pow_neq0; apply inject_Z_neq0; destruct n2; unfold sgn; lia.
+  Qed.
+
+  Lemma qr_trunc : Qtrunc (qval n1 c1 e1 / qval n2 c2 e2) = sgn x (A / B).
+  Proof. rewrite (Qtrunc_comp _ _ qr_ratio). apply Qtrunc_div; [apply qr_A_nonneg | apply qr_B_pos]. Qed.
+
+  Lemma qr_floor : Qfloor (qval n1 c1 e1 / qval n2 c2 e2) = sgn x A / B.
+  Proof. rewrite (Qfloor_comp _ _ qr_ratio). apply Qfloor_div. apply qr_B_pos. Qed.
+
+  (* value of the remainder: a - b * trunc (a / b) *)
+  Lemma qr_rem_value :
+    (qval n1 (A mod B) e ==
+     qval n1 c1 e1 - qval n2 c2 e2 * inject_Z (Qtrunc (qval n1 c1 e1 / qval n2 c2 e2)))%Q.
+  Proof.
+    rewrite qr_trunc. rewrite qr_Qva at 1. rewrite qr_Qvb. unfold qval.
+    pose proof qr_B_pos as HB.
+    pose proof (Z.div_mod A B ltac:(lia)) as DM.
+    assert (EZ : sgn n1 (A mod B) = sgn n1 A - sgn n2 B * sgn x (A / B)).
+    { unfold x. destruct n1, n2; unfold sgn; simpl xorb; cbv iota; lia. }
+    rewrite EZ. unfold Z.sub. rewrite inject_Z_plus, inject_Z_opp, inject_Z_mult. ring.
+  Qed.
+End QuoRem.
+
+Lemma canonical_nonzero : forall n c e, canonical (DFin n c e) -> ~ (qval n c e == 0)%Q -> 0 < c.
+Proof.
+  intros n c e (H & _) Hnz. destruct (Z.eq_dec c 0) as [->|]; [|lia].
+  exfalso. apply Hnz. apply qval_zero.
+Qed.
+
+(* modulo is the exact remainder of the division truncated toward zero; it is
+   never rounded *)
+Theorem modulo_exact : forall x y a b,
+  to_float x = None \/ to_float y = None ->
+  to_decimal x = Some a -> to_decimal y = Some b ->
+  canonical a -> canonical b -> ~ (Qv b == 0)%Q ->
+  exists d, modulo x y = Ok (vdec d) /\ canonical d /\
+            (Qv d == Qv a - Qv b * inject_Z (Qtrunc (Qv a / Qv b)))%Q.
+Proof.
+  intros x y [n1 c1 e1| |] [n2 c2 e2| |] HF Hx Hy Ca Cb Hnz; simpl in Ca, Cb; try contradiction.
+  change (Qv (DFin n1 c1 e1)) with (qval n1 c1 e1) in *.
+  change (Qv (DFin n2 c2 e2)) with (qval n2 c2 e2) in *.
+  pose proof (canonical_nonzero n2 c2 e2 Cb Hnz) as Hc2.
+  rewrite no_float_detour_modulo by assumption. rewrite Hx, Hy.
+  rewrite (qr_quorem n1 c1 e1 n2 c2 e2 Hc2). cbn [snd].
+  rewrite (qr_rem_exact n1 c1 e1 n2 c2 e2 Ca Cb Hc2).
+  pose proof (qr_rem_short n1 c1 e1 n2 c2 e2 Ca Cb Hc2) as RS.
+  pose proof (qr_rem_value n1 c1 e1 n2 c2 e2 Ca Cb Hc2) as RV.
+  set (r := (c1 * 10 ^ (e1 - Z.min e1 e2)) mod (c2 * 10 ^ (e2 - Z.min e1 e2))) in *.
+  exists (DFin n1 r (Z.min e1 e2)). split; [reflexivity|]. split; [|exact RV].
+  destruct Ca as (_ & _ & He1), Cb as (_ & _ & He2).
+  unfold canonical. split; [lia|]. split; [apply digits_le_of_lt; unfold prec34; lia | lia].
+Qed.
+
+(* // is the floor of the exact quotient (also for operands of opposite signs),
+   exact whenever that integer has at most 34 digits *)
+Theorem integer_divide_floor : forall x y a b,
+  to_float x = None \/ to_float y = None ->
+  to_decimal x = Some a -> to_decimal y = Some b ->
+  canonical a -> canonical b -> ~ (Qv b == 0)%Q ->
+  Z.abs (Qfloor (Qv a / Qv b)) < 10 ^ 34 ->
+  exists d, integer_divide x y = Ok (vdec d) /\ canonical d /\
+            (Qv d == inject_Z (Qfloor (Qv a / Qv b)))%Q.
+Proof.
+  intros x y [n1 c1 e1| |] [n2 c2 e2| |] HF Hx Hy Ca Cb Hnz HS; simpl in Ca, Cb; try contradiction.
+  change (Qv (DFin n1 c1 e1)) with (qval n1 c1 e1) in *.
+  change (Qv (DFin n2 c2 e2)) with (qval n2 c2 e2) in *.
+  pose proof (canonical_nonzero n2 c2 e2 Cb Hnz) as Hc2.
+  rewrite no_float_detour_integer_divide by assumption. rewrite Hx, Hy.
+  rewrite (qr_quorem n1 c1 e1 n2 c2 e2 Hc2).
+  rewrite (qr_rem_exact n1 c1 e1 n2 c2 e2 Ca Cb Hc2).
+  rewrite (qr_floor n1 c1 e1 n2 c2 e2 Cb Hc2) in *.
+  pose proof (qr_A_nonneg n1 c1 e1 0 e2 Ca) as HA.
+  pose proof (qr_B_pos 0 e1 c2 e2 Hc2) as HB.
+  set (A := c1 * 10 ^ (e1 - Z.min e1 e2)) in *.
+  set (B := c2 * 10 ^ (e2 - Z.min e1 e2)) in *.
+  pose proof (Z.div_mod A B ltac:(lia)) as DM.
+  pose proof (Z.mod_pos_bound A B HB) as MB.
+  assert (Q0 : 0 <= A / B) by (apply Z.div_pos; lia).
+  assert (P34 : 0 < 10 ^ 34) by reflexivity.
+  (* the truncated quotient is short, hence stored exactly *)
+  assert (HQ : A / B < 10 ^ 34).
+  { destruct n1, n2; unfold sgn in HS; simpl xorb in HS; cbv iota in HS; try lia;
+      (destruct (Z.eq_dec (A mod B) 0) as [R0|R0];
+       [rewrite Z.div_opp_l_z in HS by lia | rewrite Z.div_opp_l_nz in HS by lia]; lia). }
+  assert (FE : fit (xorb n1 n2) (A / B) 0 = DFin (xorb n1 n2) (A / B) 0).
+  { apply fit_exact; [lia | apply digits_le_of_lt; unfold prec34; lia | unfold emin, emax; lia]. }
+  rewrite FE.
+  cbn [is_inf is_nan is_zero sign_of].
+  destruct (Z.eqb_spec (A mod B) 0) as [R0|R0].
+  - (* exact division *)
+    cbn [negb andb].
+    exists (DFin (xorb n1 n2) (A / B) 0). split; [reflexivity|]. split.
+    + unfold canonical. split; [lia|]. split; [apply digits_le_of_lt; unfold prec34; lia | unfold emin, emax; lia].
+    + simpl Qv. rewrite qval_e0. apply inject_Z_injective.
+      destruct (xorb n1 n2); unfold sgn; [|reflexivity]. rewrite Z.div_opp_l_z by lia. reflexivity.
+  - cbn [negb andb].
+    destruct (Bool.eqb n1 n2) eqn:EB.
+    + (* same signs: truncation is the floor *)
+      cbn [negb]. apply eqb_prop in EB. subst n2. rewrite xorb_nilpotent in *.
+      exists (DFin false (A / B) 0). split; [reflexivity|]. split.
+      * unfold canonical. split; [lia|]. split; [apply digits_le_of_lt; unfold prec34; lia | unfold emin, emax; lia].
+      * simpl Qv. rewrite qval_e0. reflexivity.
+    + (* opposite signs and a remainder: one less than the truncated quotient *)
+      cbn [negb].
+      assert (EX : xorb n1 n2 = true) by (destruct n1, n2; simpl in *; congruence).
+      rewrite EX in *. unfold sgn in HS. rewrite Z.div_opp_l_nz in HS by lia.
+      assert (FS : fits34 (Qv (DFin true (A / B) 0) - Qv (DFin false 1 0))).
+      { exists (- (A / B) - 1), 0. split; [lia|]. split; [unfold emin, emax; lia|].
+        simpl Qv. rewrite !qval_e0. unfold sgn. simpl (inject_Z 10 ^ 0)%Q.
+        unfold Z.sub. rewrite inject_Z_plus. rewrite !inject_Z_opp. ring. }
+      destruct (sub_exact (DFin true (A / B) 0) (DFin false 1 0) ltac:(simpl; lia) ltac:(simpl; lia) FS)
+        as [C1 C2].
+      exists (dec_sub (DFin true (A / B) 0) (DFin false 1 0)). split; [reflexivity|]. split; [exact C1|].
+      rewrite C2. simpl Qv. rewrite !qval_e0. unfold sgn. rewrite Z.div_opp_l_nz by lia.
+      unfold Z.sub. rewrite inject_Z_plus. rewrite !inject_Z_opp. ring.
+Qed.
+
+(* for operands of equal sign, floor and truncation coincide:
+   a = b * (a // b) + a % b *)
+Lemma Qtrunc_nonneg : forall q, (0 <= q)%Q -> Qtrunc q = Qfloor q.
+Proof.
+  intros q H. unfold Qtrunc. destruct (Qlt_le_dec q 0) as [L|_]; [|reflexivity].
+  exfalso. apply (Qlt_not_le _ _ L H).
+Qed.
+
+Theorem idiv_mod_same_sign : forall x y a b,
+  to_float x = None \/ to_float y = None ->
+  to_decimal x = Some a -> to_decimal y = Some b ->
+  canonical a -> canonical b -> ~ (Qv b == 0)%Q ->
+  sign_of a = sign_of b ->
+  Z.abs (Qfloor (Qv a / Qv b)) < 10 ^ 34 ->
+  exists q r, integer_divide x y = Ok (vdec q) /\ modulo x y = Ok (vdec r) /\
+              canonical q /\ canonical r /\
+              (Qv q == inject_Z (Qfloor (Qv a / Qv b)))%Q /\
+              (Qv r == Qv a - Qv b * Qv q)%Q.
+Proof.
+  intros x y a b HF Hx Hy Ca Cb Hnz HS HB.
+  destruct (integer_divide_floor x y a b HF Hx Hy Ca Cb Hnz HB) as (q & Q1 & Q2 & Q3).
+  destruct (modulo_exact x y a b HF Hx Hy Ca Cb Hnz) as (r & R1 & R2 & R3).
+  exists q, r. repeat split; try assumption.
+  rewrite R3, Q3. rewrite Qtrunc_nonneg; [reflexivity|].
+  destruct a as [n1 c1 e1| |], b as [n2 c2 e2| |]; simpl in Ca, Cb; try contradiction.
+  simpl in HS. subst n2. simpl Qv.
+  pose proof (canonical_nonzero n1 c2 e2 Cb Hnz) as Hc2.
+  rewrite (qr_ratio n1 c1 e1 n1 c2 e2 Cb Hc2). rewrite xorb_nilpotent. unfold sgn.
+  pose proof (qr_A_nonneg n1 c1 e1 0 e2 Ca) as HA.
+  pose proof (qr_B_pos 0 e1 c2 e2 Hc2) as HB'.
+  apply Qle_shift_div_l.
+  - change 0%Q with (inject_Z 0). rewrite <- Zlt_Qlt. exact HB'.
+  - rewrite Qmult_0_l. change 0%Q with (inject_Z 0). rewrite <- Zle_Qle. exact HA.
+Qed.
+
+(* FINDING: for operands of opposite signs // floors while % truncates, so the
+   usual identity a = b * (a // b) + a % b fails: -7 // 2 = -4, -7 % 2 = -1,
+   2 * -4 + -1 = -9. *)
+Example idiv_mod_mixed_signs_inconsistent :
+  integer_divide (jn "-7") (jn "2") = Ok (vdec (DFin true 4 0)) /\
+  modulo (jn "-7") (jn "2") = Ok (vdec (DFin true 1 0)) /\
+  (do q <- integer_divide (jn "-7") (jn "2"); do r <- modulo (jn "-7") (jn "2");
+   do p <- multiply (jn "2") q; add p r) = Ok (vdec (DFin true 9 0)).
+Proof. vm_compute. repeat split. Qed.
+
+(* ------------------------------------------------------------------ *)
+(* D (continued). Every decimal the library handles is canonical, an   *)
+(* infinity or a NaN, and the operators preserve this; hence every Ok  *)
+(* result is a canonical finite decimal.                               *)
+(* ------------------------------------------------------------------ *)
+
+Definition wf_dec (d : dec) : Prop :=
+  match d with DFin _ _ _ => canonical d | _ => True end.
+
+Lemma wf_fit : forall n c e, 0 <= c -> wf_dec (fit n c e).
+Proof.
+  intros n c e Hc. destruct (fit_cases n c e Hc) as [H| ->]; [|exact I].
+  destruct (fit n c e); simpl in *; auto.
+Qed.
+
+Lemma wf_canonical : forall d, canonical d -> wf_dec d.
+Proof. intros [] H; simpl in *; auto. Qed.
+
+Lemma wf_fin_canonical : forall d, wf_dec d -> fin d -> canonical d.
+Proof. intros [] H F; simpl in *; tauto. Qed.
+
+Lemma wf_zero : forall n e, emin <= e <= emax -> wf_dec (DFin n 0 e).
+Proof. intros. simpl. rewrite digits_nonpos by lia. unfold prec34. lia. Qed.
+
+Lemma clamp_range : forall e, emin <= Z.max emin (Z.min emax e) <= emax.
+Proof. intros. unfold emin, emax. lia. Qed.
+
+Lemma wf_add : forall a b, wf_dec a -> wf_dec b -> wf_dec (dec_add a b).
+Proof.
+  intros [n1 c1 e1|s1|] [n2 c2 e2|s2|] Ha Hb; try exact I.
+  - simpl in Ha, Hb. destruct Ha as (Ha & _), Hb as (Hb & _).
+    unfold dec_add, align. cbv beta iota zeta.
+    destruct (_ =? 0); [apply wf_zero, clamp_range | apply wf_fit, Z.abs_nonneg].
+  - simpl. destruct (Bool.eqb s1 s2); exact I.
+Qed.
+
+Lemma wf_neg : forall a, wf_dec a -> wf_dec (dec_neg a).
+Proof. intros [] H; simpl in *; auto. Qed.
+
+Lemma wf_sub : forall a b, wf_dec a -> wf_dec b -> wf_dec (dec_sub a b).
+Proof. intros. unfold dec_sub. apply wf_add; [assumption | apply wf_neg; assumption]. Qed.
+
+Lemma wf_mul : forall a b, wf_dec a -> wf_dec b -> wf_dec (dec_mul a b).
+Proof.
+  intros [n1 c1 e1|s1|] [n2 c2 e2|s2|] Ha Hb; try exact I.
+  - simpl in Ha, Hb. destruct Ha as (Ha & _), Hb as (Hb & _).
+    unfold dec_mul. apply wf_fit. apply Z.mul_nonneg_nonneg; assumption.
+  - simpl. destruct (c1 =? 0); exact I.
+  - simpl. destruct (c2 =? 0); exact I.
+Qed.
+
+Lemma wf_quo : forall a b, wf_dec a -> wf_dec b -> wf_dec (dec_quo a b).
+Proof.
+  intros [n1 c1 e1|s1|] [n2 c2 e2|s2|] Ha Hb; try exact I.
+  - simpl in Ha, Hb. destruct Ha as (Ha & _), Hb as (Hb & _).
+    unfold dec_quo.
+    destruct (Z.eqb_spec c2 0); [destruct (c1 =? 0); exact I|].
+    destruct (Z.eqb_spec c1 0); [apply wf_zero, clamp_range|].
+    set (k := Z.max 0 _). unfold pow10.
+    assert (0 < 10 ^ k) by (apply pow10_pos; unfold k; lia).
+    assert (0 <= c1 * 10 ^ k / c2) by (apply Z.div_pos; nia).
+    destruct (_ =? 0); apply wf_fit; lia.
+  - apply wf_zero. unfold emin, emax; lia.
+Qed.
+
+Lemma wf_quorem : forall a b, wf_dec a -> wf_dec b ->
+  wf_dec (fst (dec_quorem a b)) /\ wf_dec (snd (dec_quorem a b)).
+Proof.
+  intros [n1 c1 e1|s1|] [n2 c2 e2|s2|] Ha Hb; try (split; exact I).
+  - pose proof Ha as Ha'. simpl in Ha, Hb. destruct Ha as (Ha & _), Hb as (Hb & _).
+    unfold dec_quorem.
+    destruct (Z.eqb_spec c2 0); [destruct (c1 =? 0); split; exact I|].
+    unfold align, pow10. cbv beta iota zeta. cbn [fst snd].
+    set (e := Z.min e1 e2).
+    assert (0 < 10 ^ (e1 - e)) by (apply pow10_pos; unfold e; lia).
+    assert (0 < 10 ^ (e2 - e)) by (apply pow10_pos; unfold e; lia).
+    assert (0 < c2 * 10 ^ (e2 - e)) by nia.
+    split; apply wf_fit.
+    + apply Z.div_pos; nia.
+    + apply Z.mod_pos_bound. assumption.
+  - cbn [dec_quorem fst snd]. split; [apply wf_zero; unfold emin, emax; lia | assumption].
+Qed.
+
+(* numbers read from text, from Go integers and from Go floats *)
+Lemma take_digits_nonneg : forall s acc n a k r,
+  0 <= acc -> take_digits s acc n = (a, k, r) -> 0 <= a.
+Proof.
+  induction s as [|b s IH]; intros acc n a k r Hacc H; simpl in H.
+  - inversion H; subst; assumption.
+  - destruct (is_digit b) eqn:D.
+    + unfold is_digit in D. apply andb_prop in D. destruct D as [D1 _]. apply Z.leb_le in D1.
+      eapply IH; [|exact H]. lia.
+    + inversion H; subst; assumption.
+Qed.
+
+Lemma wf_fit_no_inf : forall n c e d, 0 <= c ->
+  match fit n c e with DInf _ => None | d => Some d end = Some d -> wf_dec d.
+Proof.
+  intros n c e d Hc H. pose proof (wf_fit n c e Hc) as W.
+  destruct (fit n c e); inversion H; subst; assumption.
+Qed.
+
+Lemma parse_dec_body_wf : forall neg s d, parse_dec_body neg s = Some d -> wf_dec d.
+Proof.
+  intros neg s d. unfold parse_dec_body.
+  destruct (_ || _); [intros H; inversion H; exact I|].
+  destruct (beqb _ _); [intros H; inversion H; exact I|].
+  destruct (take_digits s 0 0) as [[ip ni] r1] eqn:T1.
+  assert (Hip : 0 <= ip) by (eapply take_digits_nonneg; [|exact T1]; lia).
+  assert (HC : forall c nf nd r2,
+    (match r1 with
+     | 46 :: r => let '(fp, nfr, r') := take_digits r ip 0 in (fp, nfr, ni + nfr, r')
+     | _ => (ip, 0, ni, r1)
+     end) = (c, nf, nd, r2) -> 0 <= c).
+  { intros c nf nd r2 E. destruct r1 as [|b r]; [inversion E; subst; assumption|].
+    destruct (Z.eq_dec b 46) as [->|Hb].
+    - destruct (take_digits r ip 0) as [[fp nfr] r'] eqn:T2. inversion E; subst.
+      apply (take_digits_nonneg _ _ _ _ _ _ Hip T2).
+    - assert (E' : (ip, 0, ni, b :: r) = (c, nf, nd, r2)).
+      { rewrite <- E. destruct b as [|p|p]; try reflexivity.
+        repeat (destruct p as [p|p|]; try reflexivity). exfalso; apply Hb; reflexivity. }
+      inversion E'; subst; assumption. }
+  destruct (match r1 with 46 :: r => _ | _ => _ end) as [[[c nf] nd] r2] eqn:EC.
+  specialize (HC _ _ _ _ eq_refl).
+  destruct (nd =? 0); [discriminate|].
+  destruct r2 as [|b r].
+  - apply wf_fit_no_inf. assumption.
+  - destruct (_ || _); [|discriminate].
+    destruct (match r with 45 :: t => _ | 43 :: t => _ | _ => _ end) as [eneg r'].
+    destruct (take_digits r' 0 0) as [[ev ne] r''].
+    destruct (_ || _); [discriminate|].
+    destruct (ne >? 8).
+    + destruct (c =? 0); [intros H; inversion H; apply wf_zero; unfold emin, emax; lia|].
+      destruct eneg; [intros H; inversion H; apply wf_zero; unfold emin, emax; lia | discriminate].
+    + apply wf_fit_no_inf. assumption.
+Qed.
+
+Lemma parse_dec_wf : forall s d, parse_dec s = Some d -> wf_dec d.
+Proof.
+  intros s0 d. unfold parse_dec. destruct (strip_us false s0) as [s|]; [|discriminate].
+  unfold parse_dec_plain. destruct s as [|b r]; [discriminate|].
+  destruct (Z.eq_dec b 43) as [->|H43].
+  - destruct r; [discriminate | apply parse_dec_body_wf].
+  - destruct (Z.eq_dec b 45) as [->|H45].
+    + destruct r; [discriminate | apply parse_dec_body_wf].
+    + intros H. apply (parse_dec_body_wf false (b :: r)). rewrite <- H.
+      destruct b as [|p|p]; try reflexivity.
+      repeat (destruct p as [p|p|]; try reflexivity); exfalso; (apply H43; reflexivity) || (apply H45; reflexivity).
+Qed.
+
+Theorem to_decimal_wf : forall v d, to_decimal v = Some d ->
+  (forall d', v = VNum (NDec d') -> wf_dec d') -> wf_dec d.
+Proof.
+  intros v d H HD. destruct v as [| | |[t|d'|s f|k z]| | |]; simpl in H; try discriminate.
+  - apply (parse_dec_wf t). assumption.
+  - inversion H; subst. apply HD. reflexivity.
+  - inversion H; subst. unfold dec_of_flt. destruct f as [m e| | |]; try exact I.
+    + destruct (0 <=? e); apply wf_fit; apply Z.mul_nonneg_nonneg; try apply Z.abs_nonneg;
+        apply Z.pow_nonneg; lia.
+    + apply wf_zero. unfold emin, emax; lia.
+  - inversion H; subst. unfold dec_of_Z. apply wf_fit, Z.abs_nonneg.
+Qed.
+
+(* in particular every number of a decoded JSON document *)
+Corollary json_to_decimal_wf : forall v d, json_value v = true -> to_decimal v = Some d -> wf_dec d.
+Proof.
+  intros v d J H. apply (to_decimal_wf v d H). intros d' ->. simpl in J. discriminate.
+Qed.
+
+(* no canonical decimal exceeds the largest finite decimal128 *)
+Lemma canonical_le_max : forall d, canonical d -> (Qabs (Qv d) <= max_finite)%Q.
+Proof.
+  intros [n c e| |] H; simpl in H; try contradiction. destruct H as (Hc & Hd & He).
+  simpl Qv. rewrite qval_false_abs by assumption. unfold max_finite.
+  apply (qval_le_int e c e (10 ^ 34 - 1) emax); [lia | lia|].
+  rewrite Z.sub_diag, Z.mul_1_r.
+  assert (0 < 10 ^ (emax - e)) by (apply pow10_pos; lia).
+  assert (c < 10 ^ 34).
+  { destruct (Z.eq_dec c 0) as [->|]; [reflexivity|]. apply digits_lt_pow; [lia | assumption]. }
+  nia.
+Qed.
+
+Lemma max_plus_one_below_threshold : (max_finite + 1 < overflow_threshold)%Q.
+Proof.
+  unfold max_finite, overflow_threshold, qval, sgn, T34.
+  set (P := (inject_Z 10 ^ emax)%Q).
+  assert (HP : (inject_Z 10 <= P)%Q).
+  { unfold P. change (inject_Z 10) with (inject_Z 10 ^ 1)%Q at 1.
+    apply Qpower_le_compat_l; [unfold emax; lia | discriminate]. }
+  clearbody P.
+  replace (2 * 10 ^ 34 - 1) with (2 * (10 ^ 34 - 1) + 1) by lia.
+  rewrite inject_Z_plus, inject_Z_mult.
+  set (m := inject_Z (10 ^ 34 - 1)). clearbody m.
+  change (inject_Z 2) with 2%Q. change (inject_Z 1) with 1%Q.
+  setoid_replace ((1 # 2) * ((2 * m + 1) * P))%Q with (m * P + (1 # 2) * P)%Q by field.
+  apply Qplus_lt_r.
+  apply Qlt_le_trans with ((1 # 2) * inject_Z 10)%Q; [reflexivity|].
+  apply Qmult_le_l; [reflexivity | exact HP].
+Qed.
+
+(* subtracting one from a canonical decimal cannot overflow *)
+Lemma sub_one_canonical : forall q, canonical q -> canonical (dec_sub q (DFin false 1 0)).
+Proof.
+  intros q Hq. apply sub_no_overflow; [apply canonical_finite; assumption | simpl; lia|].
+  eapply Qle_lt_trans; [|apply max_plus_one_below_threshold].
+  setoid_replace (Qv q - Qv (DFin false 1 0))%Q with (Qv q + - (1))%Q
+    by (simpl Qv; rewrite qval_e0; unfold sgn; reflexivity).
+  eapply Qle_trans; [apply Qabs_triangle|].
+  apply Qplus_le_compat; [apply canonical_le_max; assumption | apply Qle_refl].
+Qed.
+
+(* RESULTS: an Ok result of any binary arithmetic operator on well-formed
+   operands (in particular on JSON numbers), not both floats, is a canonical
+   finite decimal -- never an infinity, a NaN or a binary float. *)
+Section ResultsCanonical.
+  Variables (x y : value) (a b : dec).
+  Hypothesis HF : to_float x = None \/ to_float y = None.
+  Hypothesis Hx : to_decimal x = Some a.
+  Hypothesis Hy : to_decimal y = Some b.
+  Hypothesis Wa : wf_dec a.
+  Hypothesis Wb : wf_dec b.
+
+  Lemma arith_result_canonical : forall fop dop v,
+    (wf_dec (dop a b)) -> arith fop dop x y = Ok v ->
+    exists d, v = VNum (NDec d) /\ canonical d.
+  Proof.
+    intros fop dop v W H. rewrite no_float_detour in H by assumption. rewrite Hx, Hy in H.
+    apply trap_ok in H. destruct H as [-> F]. exists (dop a b). split; [reflexivity|].
+    apply wf_fin_canonical; assumption.
+  Qed.
+
+  Theorem add_result_canonical : forall v, add x y = Ok v -> exists d, v = VNum (NDec d) /\ canonical d.
+  Proof. intros v. apply arith_result_canonical. apply wf_add; assumption. Qed.
+  Theorem subtract_result_canonical : forall v, subtract x y = Ok v -> exists d, v = VNum (NDec d) /\ canonical d.
+  Proof. intros v. apply arith_result_canonical. apply wf_sub; assumption. Qed.
+  Theorem multiply_result_canonical : forall v, multiply x y = Ok v -> exists d, v = VNum (NDec d) /\ canonical d.
+  Proof. intros v. apply arith_result_canonical. apply wf_mul; assumption. Qed.
+  Theorem divide_result_canonical : forall v, divide x y = Ok v -> exists d, v = VNum (NDec d) /\ canonical d.
+  Proof. intros v. apply arith_result_canonical. apply wf_quo; assumption. Qed.
+
+  Theorem modulo_result_canonical : forall v, modulo x y = Ok v -> exists d, v = VNum (NDec d) /\ canonical d.
+  Proof.
+    intros v H. rewrite no_float_detour_modulo in H by assumption. rewrite Hx, Hy in H.
+    apply trap_ok in H. destruct H as [-> F]. eexists. split; [reflexivity|].
+    apply wf_fin_canonical; [apply wf_quorem; assumption | assumption].
+  Qed.
+
+  Theorem integer_divide_result_canonical : forall v, integer_divide x y = Ok v ->
+    exists d, v = VNum (NDec d) /\ canonical d.
+  Proof.
+    intros v H. rewrite no_float_detour_integer_divide in H by assumption. rewrite Hx, Hy in H.
+    destruct (wf_quorem a b Wa Wb) as [W1 _].
+    destruct (dec_quorem a b) as [q rem]. cbn [fst] in W1.
+    destruct (is_inf q) eqn:I1; [discriminate|]. destruct (is_nan q) eqn:I2; [discriminate|].
+    assert (Cq : canonical q).
+    { apply wf_fin_canonical; [assumption|]. apply fin_not_inf_nan. auto. }
+    destruct (_ && _); inversion H; eexists; (split; [reflexivity|]);
+      [apply sub_one_canonical; assumption | assumption].
+  Qed.
+End ResultsCanonical.
+
+(* the same, packaged for JSON documents: all six binary operators *)
+Theorem results_never_inf_nan : forall op x y v,
+  In op [add; subtract; multiply; divide; integer_divide; modulo] ->
+  json_value x = true -> json_value y = true ->
+  op x y = Ok v -> exists d, v = VNum (NDec d) /\ canonical d.
+Proof.
+  intros op x y v Hop Jx Jy H.
+  assert (HF : to_float x = None \/ to_float y = None) by (left; apply json_value_to_float; assumption).
+  assert (HD : exists a b, to_decimal x = Some a /\ to_decimal y = Some b).
+  { simpl in Hop.
+    destruct Hop as [<-|[<-|[<-|[<-|[<-|[<-|[]]]]]]];
+      try (unfold add, subtract, multiply, divide in H; rewrite no_float_detour in H by assumption);
+      try (rewrite no_float_detour_integer_divide in H by assumption);
+      try (rewrite no_float_detour_modulo in H by assumption);
+      destruct (to_decimal x) as [a|], (to_decimal y) as [b|]; try discriminate; eauto. }
+  destruct HD as (a & b & Hx & Hy).
+  pose proof (json_to_decimal_wf x a Jx Hx) as Wa.
+  pose proof (json_to_decimal_wf y b Jy Hy) as Wb.
+  simpl in Hop.
+  destruct Hop as [<-|[<-|[<-|[<-|[<-|[<-|[]]]]]]].
+  - eapply add_result_canonical; eassumption.
+  - eapply subtract_result_canonical; eassumption.
+  - eapply multiply_result_canonical; eassumption.
+  - eapply divide_result_canonical; eassumption.
+  - eapply integer_divide_result_canonical; eassumption.
+  - eapply modulo_result_canonical; eassumption.
+Qed.
+
+(* ------------------------------------------------------------------ *)
+(* The operators when the exact result is NOT representable: overflow  *)
+(* error, or a result within one unit of the 34th significant digit    *)
+(* (half a unit for add, subtract, multiply), provided the exact       *)
+(* result is in the normal range |r| >= 1e-6143.                       *)
+(* ------------------------------------------------------------------ *)
+
+Section OperatorsClose.
+  Variables (x y : value) (a b : dec).
+  Hypothesis HF : to_float x = None \/ to_float y = None.
+  Hypothesis Hx : to_decimal x = Some a.
+  Hypothesis Hy : to_decimal y = Some b.
+  Hypothesis Ha : finite a.
+  Hypothesis Hb : finite b.
+
+  Lemma arith_close_gen : forall fop dop h (r : Q),
+    (exists s, dop a b = DInf s) \/ close_to h (dop a b) r ->
+    arith fop dop x y = Err EInfinity \/
+    exists d, arith fop dop x y = Ok (vdec d) /\ close_to h d r.
+  Proof.
+    intros fop dop h r H. rewrite no_float_detour by assumption. rewrite Hx, Hy.
+    destruct H as [[s ->]|HC]; [left; reflexivity | right].
+    exists (dop a b). split; [|exact HC].
+    apply trap_fin. apply finite_fin, canonical_finite. exact (proj1 HC).
+  Qed.
+
+  Theorem add_op_close : normal (Qv a + Qv b) ->
+    add x y = Err EInfinity \/ exists d, add x y = Ok (vdec d) /\ close_to true d (Qv a + Qv b).
+  Proof. intros H. apply arith_close_gen. apply add_close; assumption. Qed.
+
+  Theorem subtract_op_close : normal (Qv a - Qv b) ->
+    subtract x y = Err EInfinity \/ exists d, subtract x y = Ok (vdec d) /\ close_to true d (Qv a - Qv b).
+  Proof. intros H. apply arith_close_gen. apply sub_close; assumption. Qed.
+
+  Theorem multiply_op_close : normal (Qv a * Qv b) ->
+    multiply x y = Err EInfinity \/ exists d, multiply x y = Ok (vdec d) /\ close_to true d (Qv a * Qv b).
+  Proof. intros H. apply arith_close_gen. apply mul_close; assumption. Qed.
+
+  Theorem divide_op_close : ~ (Qv b == 0)%Q -> normal (Qv a / Qv b) ->
+    divide x y = Err EInfinity \/ exists d, divide x y = Ok (vdec d) /\ close_to false d (Qv a / Qv b).
+  Proof. intros H0 H. apply arith_close_gen. apply quo_close; assumption. Qed.
+End OperatorsClose.
+
+(* ------------------------------------------------------------------ *)
+(* H (third part). sum and avg when the exact result is not            *)
+(* representable, and the shape of their results                        *)
+(* ------------------------------------------------------------------ *)
+
+Lemma close_to_comp : forall h d r s, (r == s)%Q -> close_to h d r -> close_to h d s.
+Proof.
+  intros h d r s E (HC & u & HU & HB). split; [exact HC|].
+  exists u. split; [exact (is_ulp34_comp _ _ _ E HU)|]. rewrite <- E. exact HB.
+Qed.
+
+(* sum when the exact total is not representable: one rounding, so overflow or
+   within HALF a unit of the 34th significant digit of the exact total *)
+Theorem sum_close : forall l ds,
+  Forall2 (fun v d => to_decimal v = Some d) l ds -> Forall fin ds ->
+  normal (qsum ds) ->
+  sum (VArr l) = Err EInfinity \/
+  exists d, sum (VArr l) = Ok (vdec d) /\ close_to true d (qsum ds).
+Proof.
+  intros l ds HF HD HN.
+  destruct (sum_loop_total l ds HF HD) as (n & c & e & E1 & Hc & EV).
+  unfold sum. rewrite E1. cbn [bind round_once].
+  destruct (fit_close_ulp n c e _ Hc EV HN) as [HI|HC].
+  - left. rewrite HI. reflexivity.
+  - right. exists (fit n c e). split; [|exact HC].
+    apply trap_fin. apply finite_fin, canonical_finite. exact (proj1 HC).
+Qed.
+
+(* overflow is decided by the exact total alone *)
+Theorem sum_overflow : forall l ds,
+  Forall2 (fun v d => to_decimal v = Some d) l ds -> Forall fin ds ->
+  (overflow_threshold < Qabs (qsum ds))%Q -> sum (VArr l) = Err EInfinity.
+Proof.
+  intros l ds HF HD HO.
+  destruct (sum_loop_total l ds HF HD) as (n & c & e & E1 & Hc & EV).
+  unfold sum. rewrite E1. cbn [bind round_once].
+  rewrite (fit_overflow_above' n c e _ Hc EV HO). reflexivity.
+Qed.
+
+Theorem sum_no_overflow : forall l ds,
+  Forall2 (fun v d => to_decimal v = Some d) l ds -> Forall fin ds ->
+  (Qabs (qsum ds) < overflow_threshold)%Q ->
+  exists d, sum (VArr l) = Ok (vdec d) /\ canonical d.
+Proof.
+  intros l ds HF HD HO.
+  destruct (sum_loop_total l ds HF HD) as (n & c & e & E1 & Hc & EV).
+  pose proof (fit_no_overflow' n c e _ Hc EV HO) as HC.
+  exists (fit n c e). split; [|exact HC].
+  unfold sum. rewrite E1. cbn [bind round_once].
+  apply trap_fin. apply finite_fin, canonical_finite, HC.
+Qed.
+
+(* avg: the exact total divided by the length, rounded once by the division:
+   overflow or within ONE unit of the 34th significant digit *)
+Theorem avg_close : forall l ds, l <> [] ->
+  Forall2 (fun v d => to_decimal v = Some d) l ds -> Forall fin ds ->
+  normal (qsum ds / inject_Z (Z.of_nat (List.length l))) ->
+  avg (VArr l) = Err EInfinity \/
+  exists d, avg (VArr l) = Ok (vdec d) /\
+            close_to false d (qsum ds / inject_Z (Z.of_nat (List.length l))).
+Proof.
+  intros l ds Hne HF HD HN.
+  destruct (sum_loop_total l ds HF HD) as (s & c & e & E1 & Hc & EV).
+  set (n := Z.of_nat (List.length l)) in *.
+  assert (Hn : 0 < n) by (unfold n; destruct l; [contradiction | simpl List.length; lia]).
+  assert (QN : (Qv (DFin false n 0) == inject_Z n)%Q) by (simpl; apply qval_e0).
+  assert (NZ : ~ (Qv (DFin false n 0) == 0)%Q).
+  { rewrite QN. apply inject_Z_neq0. lia. }
+  assert (EQ : (Qv (DFin s c e) / Qv (DFin false n 0) == qsum ds / inject_Z n)%Q).
+  { rewrite QN. simpl Qv. rewrite EV. reflexivity. }
+  assert (HN' : normal (Qv (DFin s c e) / Qv (DFin false n 0))).
+  { unfold normal. rewrite EQ. exact HN. }
+  unfold avg. destruct l as [|v l']; [contradiction|]. rewrite E1. cbn [bind]. fold n.
+  destruct (quo_close (DFin s c e) (DFin false n 0) Hc ltac:(simpl; lia) NZ HN') as [[x HI]|HC].
+  - left. rewrite HI. reflexivity.
+  - right. exists (dec_quo (DFin s c e) (DFin false n 0)).
+    split; [|exact (close_to_comp _ _ _ _ EQ HC)].
+    apply trap_fin. apply finite_fin, canonical_finite. exact (proj1 HC).
+Qed.
+
+(* ---- results of sum and avg are canonical finite decimals ---- *)
+
+Lemma dec_add_not_fin_l : forall x y, ~ fin x -> ~ fin (dec_add x y).
+Proof.
+  intros [n1 c1 e1|s1|] [n2 c2 e2|s2|] H; simpl in *; try tauto.
+  destruct (Bool.eqb s1 s2); simpl; tauto.
+Qed.
+
+Lemma dec_add_not_fin_r : forall x y, ~ fin y -> ~ fin (dec_add x y).
+Proof.
+  intros [n1 c1 e1|s1|] [n2 c2 e2|s2|] H; simpl in *; try tauto.
+  destruct (Bool.eqb s1 s2); simpl; tauto.
+Qed.
+
+(* once an infinity or a NaN has been met, the special accumulator stays one *)
+Lemma sum_loop_special : forall l t sp r, ~ fin sp ->
+  sum_loop l t sp false = Ok r -> snd r = false /\ ~ fin (snd (fst r)).
+Proof.
+  induction l as [|v l IH]; intros t sp r Hsp H; cbn [sum_loop] in H.
+  - inversion H; subst. simpl. split; [reflexivity | exact Hsp].
+  - destruct (to_decimal v) as [d|]; [|discriminate]. cbn [andb] in H.
+    exact (IH _ _ _ (dec_add_not_fin_l sp d Hsp) H).
+Qed.
+
+(* inversion of the loop: either every element was finite and the total is the
+   exact sum, or the special accumulator is an infinity or a NaN *)
+Lemma sum_loop_inv : forall l t sp r, finite t -> sum_loop l t sp true = Ok r ->
+  exists ds, Forall2 (fun v d => to_decimal v = Some d) l ds /\
+    ((Forall fin ds /\ exists t', r = (t', sp, true) /\ finite t' /\ (Qv t' == Qv t + qsum ds)%Q) \/
+     (snd r = false /\ ~ fin (snd (fst r)))).
+Proof.
+  induction l as [|v l IH]; intros t sp r Ht H; cbn [sum_loop] in H.
+  - inversion H; subst. exists []. split; [constructor|]. left. split; [constructor|].
+    exists t. split; [reflexivity|]. split; [exact Ht|]. simpl. ring.
+  - destruct (to_decimal v) as [d|] eqn:Ev; [|discriminate]. cbn [andb] in H.
+    destruct (is_fin d) eqn:Fd.
+    + pose proof (is_fin_fin d Fd) as Hd.
+      destruct (exact_add_value t d (finite_fin t Ht) Hd) as [HA HV].
+      destruct (IH _ _ _ HA H) as (ds & F2 & [(HD & t' & -> & Ht' & E)|HS]).
+      * exists (d :: ds). split; [constructor; assumption|]. left.
+        split; [constructor; assumption|]. exists t'. split; [reflexivity|]. split; [exact Ht'|].
+        rewrite E, HV. simpl. ring.
+      * exists (d :: ds). split; [constructor; assumption|]. right. exact HS.
+    + assert (Hd : ~ fin d) by (intros F; rewrite (fin_is_fin d F) in Fd; discriminate).
+      pose proof (sum_loop_special _ _ _ _ (dec_add_not_fin_r sp d Hd) H) as HS.
+      assert (HL : exists ds, Forall2 (fun v d => to_decimal v = Some d) l ds).
+      { clear - H. revert H. generalize t (dec_add sp d) false. induction l as [|w l IH]; intros t0 s0 f0 H.
+        - exists []. constructor.
+        - cbn [sum_loop] in H. destruct (to_decimal w) as [dw|] eqn:Ew; [|discriminate].
+          destruct (f0 && is_fin dw); destruct (IH _ _ _ H) as (ds & F2);
+            exists (dw :: ds); constructor; assumption. }
+      destruct HL as (ds & F2). exists (d :: ds). split; [constructor; assumption|]. right. exact HS.
+Qed.
+
+Lemma finite_zero : finite dec_zero.
+Proof. unfold dec_zero. simpl. lia. Qed.
+
+Lemma not_fin_trap : forall d v, ~ fin d -> trap d <> Ok v.
+Proof. intros [n c e|n|] v H; simpl in H; [tauto | discriminate | discriminate]. Qed.
+
+Lemma wf_quo_finite : forall a b, finite a -> finite b -> wf_dec (dec_quo a b).
+Proof.
+  intros [n1 c1 e1|s1|] [n2 c2 e2|s2|] Ha Hb; simpl in Ha, Hb; try contradiction.
+  unfold dec_quo.
+  destruct (Z.eqb_spec c2 0); [destruct (c1 =? 0); exact I|].
+  destruct (Z.eqb_spec c1 0); [apply wf_zero, clamp_range|].
+  set (k := Z.max 0 _). unfold pow10.
+  assert (0 < 10 ^ k) by (apply pow10_pos; unfold k; lia).
+  assert (0 <= c1 * 10 ^ k / c2) by (apply Z.div_pos; nia).
+  destruct (_ =? 0); apply wf_fit; lia.
+Qed.
+
+(* an Ok result of sum is a canonical finite decimal, and every element was a
+   finite number: never an infinity, a NaN or a binary float *)
+Theorem sum_result_finite : forall l v, sum (VArr l) = Ok v ->
+  exists ds d, Forall2 (fun v d => to_decimal v = Some d) l ds /\ Forall fin ds /\
+               v = vdec d /\ canonical d.
+Proof.
+  intros l v H. unfold sum in H.
+  destruct (sum_loop l dec_zero dec_zero true) as [r| | | |] eqn:E; cbn [bind] in H; try discriminate.
+  destruct (sum_loop_inv _ _ _ _ finite_zero E) as (ds & F2 & [(HD & t' & -> & Ht' & _)|[S1 S2]]).
+  - destruct t' as [n c e| |]; simpl in Ht'; try contradiction. cbn [round_once] in H.
+    apply trap_ok in H. destruct H as [-> F].
+    exists ds, (fit n c e). repeat split; try assumption.
+    apply wf_fin_canonical; [apply wf_fit; exact Ht' | exact F].
+  - destruct r as [[t' sp'] f']. simpl in S1, S2. subst f'.
+    exfalso. exact (not_fin_trap _ _ S2 H).
+Qed.
+
+Theorem avg_result_finite : forall l v, avg (VArr l) = Ok v ->
+  (l = [] /\ v = VNull) \/
+  exists ds d, Forall2 (fun v d => to_decimal v = Some d) l ds /\ Forall fin ds /\
+               v = vdec d /\ canonical d.
+Proof.
+  intros l v H. unfold avg in H. destruct l as [|w l']; [left; inversion H; auto | right].
+  set (l := w :: l') in *.
+  destruct (sum_loop l dec_zero dec_zero true) as [r| | | |] eqn:E; cbn [bind] in H; try discriminate.
+  destruct (sum_loop_inv _ _ _ _ finite_zero E) as (ds & F2 & [(HD & t' & -> & Ht' & _)|[S1 S2]]).
+  - apply trap_ok in H. destruct H as [-> F].
+    eexists ds, _. repeat split; try eassumption.
+    apply wf_fin_canonical; [|exact F].
+    apply wf_quo_finite; [exact Ht' | simpl; lia].
+  - destruct r as [[t' sp'] f']. simpl in S1, S2. subst f'.
+    exfalso. exact (not_fin_trap _ _ S2 H).
+Qed.
+
+(* Go integers convert exactly *)
+Lemma to_decimal_int_exact : forall k z, Z.abs z < 10 ^ 34 ->
+  to_decimal (VNum (NInt k z)) = Some (DFin (z <? 0) (Z.abs z) 0) /\
+  (Qv (DFin (z <? 0) (Z.abs z) 0) == inject_Z z)%Q.
+Proof.
+  intros k z Hz. split.
+  - simpl. unfold dec_of_Z. f_equal.
+    apply fit_exact; [lia | apply digits_le_of_lt; unfold prec34; lia | unfold emin, emax; lia].
+  - simpl. rewrite qval_e0. unfold sgn. destruct (Z.ltb_spec z 0); apply inject_Z_injective; lia.
+Qed.
+
+(* Below the normal range the one-ulp bound does not hold (gradual underflow,
+   as in IEEE 754-2008): 1e-6176 * 0.5 = 5e-6177 exactly, the result is 0. *)
+Example underflow_to_zero :
+  multiply (jn "1e-6176") (jn "0.5") = Ok (vdec (DFin false 0 (-6176))) /\
+  multiply (jn "1e-6176") (jn "0.6") = Ok (vdec (DFin false 1 (-6176))).
+Proof. vm_compute. split; reflexivity. Qed.
+
+(* 1/3 is not representable: 34 threes, within one ulp *)
+Example one_third :
+  divide (jn "1") (jn "3") = Ok (vdec (DFin false 3333333333333333333333333333333333 (-34))) /\
+  divide (jn "2") (jn "3") = Ok (vdec (DFin false 6666666666666666666666666666666667 (-34))) /\
+  divide (jn "1") (jn "8") = Ok (vdec (DFin false 1250000000000000000000000000000000 (-34))) /\
+  equal (vdec (DFin false 1250000000000000000000000000000000 (-34))) (jn "0.125") = true.
+Proof. vm_compute. repeat split. Qed.
+
+Print Assumptions no_float_detour.
+Print Assumptions fit_value_exact.
+Print Assumptions add_exact.
+Print Assumptions mul_exact.
+Print Assumptions quo_exact.
+Print Assumptions quo_close.
+Print Assumptions fit_overflow_only_above.
+Print Assumptions overflow_traps.
+Print Assumptions divide_by_zero_traps.
+Print Assumptions results_never_inf_nan.
+Print Assumptions integer_divide_floor.
+Print Assumptions modulo_exact.
+Print Assumptions idiv_mod_same_sign.
+Print Assumptions floor_value.
+Print Assumptions less_by_value.
+Print Assumptions sum_rounds_once.
+Print Assumptions sum_exact.
+Print Assumptions sum_close.
+Print Assumptions avg_exact.
+Print Assumptions avg_close.
+Print Assumptions sum_result_finite.
+Print Assumptions avg_result_finite.
+Print Assumptions divide_op_close.
